@@ -45,14 +45,46 @@ class TimeCheck:
         n_val = 160000 if tier == "quick" else 5000000
         n_q = 12000 if tier == "quick" else 300000
         k = 16
-        return [{"seed": seed, "shard": i, "values": n_val // k, "queues": n_q // k} for i in range(k)]
+        n_sim = 64 if tier == "quick" else 1600
+        per = -(-n_sim // 8)
+        # the simulator's own queue in real runs: events are re-timed by the simulator (a re-planned task's cached
+        # TASK_PLACEMENT, the SCHEDULER_START pulled back by a release) through whatever path it uses for that
+        sims = [{"seed": seed, "sim": True, "start": i * per, "count": per} for i in range(8)]
+        return [{"seed": seed, "shard": i, "values": n_val // k, "queues": n_q // k} for i in range(k)] + sims
 
     def replay_spec(self, case):
+        if case.get("sim"):
+            return {"seed": case["seed"], "sim": True, "start": case["index"], "count": 1}
         return {"seed": case["seed"], "shard": case["shard"], "values": case.get("values", 0),
                 "queues": case.get("queues", 0), "only": case.get("only")}
 
     # ------------------------------------------------------------------
+    def run_sim_shard(self, spec, workdir):
+        import os
+        import shutil
+        from .. import e2e, worldgen
+        viol, counters = [], {}
+        for idx in range(spec["start"], spec["start"] + spec["count"]):
+            if idx % 2 == 0:
+                world = worldgen.gen_world(spec["seed"], idx, "planner", loop_timeout=150,
+                                           flags={"retract_schedules": True, "scheduler_lookahead": [2, 5, 20][idx % 3]})
+            else:
+                world = worldgen.gen_world(spec["seed"], idx, "greedy", delays=[1, 3], frequencies=[3, 10])
+            wd = os.path.join(workdir, f"w{idx}")
+            ctx = e2e.run_world(world, wd, opts={"csvreader": False, "finalize": False})
+            shutil.rmtree(wd, ignore_errors=True)
+            counters["sim_worlds"] = counters.get("sim_worlds", 0) + 1
+            counters["sim_pops"] = counters.get("sim_pops", 0) + ctx.counters.get("pops", 0)
+            counters["sim_replans_of_scheduled_tasks"] = counters.get("sim_replans_of_scheduled_tasks", 0) + sum(max(0, r.get("decisions", 0) - 1) for r in ctx.tasks.values())
+            for v in ctx.violations:
+                if v["kind"] == "queue_order":
+                    viol.append({"kind": "simulator_queue_order", "detail": f"{world['flags']['scheduler']}: {v['detail']}",
+                                 "case": {"seed": spec["seed"], "sim": True, "index": idx}, "case_id": f"sim/{idx}", "facts": {}})
+        return {"viol": viol, "counters": counters, "samples": [], "pairs": []}
+
     def run_shard(self, spec, workdir):
+        if spec.get("sim"):
+            return self.run_sim_shard(spec, workdir)
         from utils import EventTime
         U = {"US": EventTime.Unit.US, "MS": EventTime.Unit.MS, "S": EventTime.Unit.S}
         rng = random.Random(seed_int("c16", spec["seed"], spec["shard"]))
@@ -251,6 +283,8 @@ class TimeCheck:
             inconclusive.append(f"only {len(pairs)} of 9 unit pairs seen")
         if tot.get("queue_histories_with_retime", 0) < (5000 if tier == "quick" else 100000):
             inconclusive.append("too few queue histories with in-place retimes")
+        if tier != "replay" and tot.get("sim_pops", 0) < 3000:
+            inconclusive.append(f"only {tot.get('sim_pops', 0)} pops of the simulator's own queue judged")
         if tot.get("coarsening_refused", 0) == 0 or tot.get("equal_pairs", 0) < 1000:
             inconclusive.append("coarsening refusals / equal-value pairs not reached")
         cov = {"evaluations": tot.get("tuples", 0) + tot.get("queue_histories", 0),
